@@ -4,6 +4,7 @@ package c12
 import (
 	"fmt"
 	"sort"
+	"strings"
 	"sync"
 
 	"verif/harness/core"
@@ -41,7 +42,8 @@ type Case struct {
 	Auth       bool              `json:"auth,omitempty"`
 	Conns      []Conn            `json:"conns"`
 	Parallel   bool              `json:"parallel,omitempty"`
-	TLS        bool              `json:"tls,omitempty"` // certificates configured (connection kind tls-cancel)
+	TLS        bool              `json:"tls,omitempty"`     // certificates configured (connection kind tls-cancel)
+	Traffic    int               `json:"traffic,omitempty"` // bytes of other queries before the handlers' view is recorded
 	OptSeed    int               `json:"opt_seed,omitempty"`
 }
 
@@ -231,7 +233,16 @@ func runConn(env *script.Env, c Case, cc Conn) (r connResult) {
 	if i != len(msgs)-1 || msgs[i].Type != 'Z' || msgs[i].Status != 'I' {
 		return fail("C12/ready", "expected exactly one ReadyForQuery(I) after the parameters: %v", pgwire.Briefs(msgs))
 	}
-	// what handlers see
+	// what handlers see - also after the connection has carried Traffic bytes of other queries (the
+	// client parameters are handed out once and must stay what they were)
+	for sent := 0; sent < c.Traffic; {
+		n := 700 + sent%1300
+		fq := "filler " + strings.Repeat("f", n)
+		if rr := s.Send(pgwire.Query(fq)); rr.State != memnet.Idle {
+			return connResult{inconclusive: "filler query: " + rr.State.String()}
+		}
+		sent += n
+	}
 	r2 := s.Send(pgwire.Query(q))
 	if r2.State == memnet.Timeout {
 		return connResult{inconclusive: "query: guard"}
@@ -342,6 +353,7 @@ func Run(c Case) core.Result {
 		cfg.TLS = "cert"
 	}
 	cfg.Table.Q = map[string]script.Outcome{q: {Stmts: []script.Stmt{{Ops: []script.Op{{K: "complete", Tag: "OK"}}}}}}
+	cfg.Table.Def = &script.Outcome{Stmts: []script.Stmt{{Ops: []script.Op{{K: "complete", Tag: "FILLER"}}}}}
 	if c.Auth {
 		cfg.Auth = &script.AuthSpec{User: "*", Pass: "pw"}
 	}
